@@ -761,6 +761,9 @@ func (p *prop) Generate(rng *core.Rand, tier string, emit func(string)) {
 	for _, m := range malformed {
 		emit(m)
 	}
+	if p.envErr == nil {
+		p.genKeys(rng.Fork(), emit)
+	}
 	frng := rng.Fork()
 	for i := 0; i < nScen; i++ {
 		do(genScenario(frng, maxCfgs))
@@ -809,6 +812,9 @@ func (p *prop) Run(line string) core.Outcome {
 		return core.Outcome{Impl: "harness-error", Failures: []core.Failure{{Class: "harness-env", What: p.envErr.Error()}}}
 	}
 	f := strings.Fields(line)
+	if len(f) > 0 && f[0] == "key" {
+		return p.runKey(f)
+	}
 	if len(f) != 6 || f[0] != "seq" {
 		return core.Outcome{Impl: "bad-op", Tags: []string{"trivial", "bad-op"}}
 	}
